@@ -23,7 +23,8 @@ def main():
         os.execv('/bin/sh', ['/bin/sh', sh])
     spec = props.PROPS[a.prop]
     hs = spec['harnesses'](a.tier)
-    if a.only: hs = [h for h in hs if h.name == a.only]
+    if a.only:
+        hs = [h for h in hs if h.name == a.only]; os.environ['VERIF_DEV'] = '1'
     rc = driver.run_property(a.prop, hs, a.tier, spec['level'], spec.get('assumptions', []), spec.get('outside', []), nproc=a.nproc, seed=seed)
     sys.exit(rc)
 
